@@ -1,5 +1,6 @@
 import Nstd.Common.Basic
 import Nstd.Server.ModelC13
+import Nstd.Server.ReentC13
 import Nstd.Server.ModelC14
 /-
   Line protocol of the Server area.  Two dialects share one driver (and one harness):
@@ -363,15 +364,65 @@ structure DState where
   s13 : C13.St := C13.init
   s14 : C14.St := C14.init
   tags : C14.Tags := []
+  inner : List C13.Op := []     -- calls queued by `cb <op>`: made inside the next onRead / onWrite (ReentC13.lean)
+
+namespace C13
+
+def innerStr (out : Out) : String :=
+  match out.res with
+  | .wrote r p => s!"(w{b01 r}.{p})"
+  | .readRes r d => s!"(rd{b01 r}.{d.length})"
+  | _ => ""
+
+/-- run the queued calls at the callback point; returns the state, the log suffix and the sends they made -/
+def runInner (s : St) : List Op → String → List (Nat × SendRes) → St × String × List (Nat × SendRes)
+  | [], acc, tx => (s, acc, tx)
+  | op :: r, acc, tx =>
+    let (s', out) := stepT s op
+    let tag := match op with
+      | .suspend => "(s)"
+      | .resume => "(u)"
+      | _ => innerStr out
+    runInner s' r (acc ++ tag) (tx ++ out.sends)
+
+def obsR (s : St) (o : Out) (suffix : String) (tx : List (Nat × SendRes)) : String :=
+  let sb := if s.dead then 0 else s.backlog.length
+  let su := if s.dead then false else s.suspended
+  s!"{resStr o.res} sb={sb} su={b01 su} in={interestStr s.interest} cb={cbStr o.cbs}{suffix} tx={txStr (o.sends ++ tx)}"
+
+def isInnerOp : Op → Bool
+  | .write _ _ => true
+  | .read m => m != 0
+  | .suspend => true
+  | .resume => true
+  | _ => false
+
+end C13
 
 def stepLine (st : DState) (ws : List String) : DState × String :=
   match ws with
   | ["reset"] => ({ tags := st.tags }, "ok")
+  | "cb" :: rest =>
+    match C13.parseOp rest with
+    | some op =>
+      if !C13.isInnerOp op || st.inner.length ≥ 8 then (st, "bad-op")
+      else if st.s13.dead then (st, "dead")
+      else ({ st with inner := st.inner ++ [op] }, C13.obs st.s13 { res := .ok })
+    | none => (st, "bad-op")
   | _ =>
     match C13.parseOp ws with
     | some op =>
       match C13.step st.s13 op with
-      | some (s', o) => ({ st with s13 := s' }, C13.obs s' o)
+      | some (s', o) =>
+        let isReady := match op with | .ready _ _ _ => true | _ => false
+        if isReady && C13.delivered o && !st.inner.isEmpty then
+          let (s'', suffix, tx) := C13.runInner s' st.inner "" []
+          -- run() goes round its loop: the closing loop runs before the next poll (a client failed by an inner write gets onClosed)
+          let sel0 := match op with | .ready _ _ oc => C13.Op.ready false false oc | other => other
+          let (s3, o3) := C13.stepT s'' sel0
+          let suffix' := if o3.cbs.isEmpty then suffix else suffix ++ C13.cbStr o3.cbs
+          ({ st with s13 := s3, inner := [] }, C13.obsR s3 o suffix' (tx ++ o3.sends))
+        else ({ st with s13 := s' }, C13.obs s' o)
       | none => (st, "bad-op")
     | none =>
       match C14.stepLine st.s14 st.tags ws with
